@@ -427,17 +427,45 @@ package parsers
 //@   ensures[C03] fresh(c.initialTokens) && fresh(c.resultTokens) && arr(c.resultTokens) != arr(c.initialTokens) && pOK(c)
 //@   assigns c.expression, c.originalTokens, c.initialTokens, c.resultTokens, c.currentTokenIndex, c.variableNames
 //@   nopanic
-// A14 (trusted, not verified): the lexical analysis turns tokenizer tokens into classified tokens that satisfy
-// tokOK (a valid value; variables carry their name as a string; no Function or Unary type yet) or fails with an error.
-// It is covered by the bounded reference check of C02, which compares whole compilations with a reference.
+// the operator table: as many types as spellings, none of them a type that only the syntax analysis creates
+//@ globalinv len(operators) == len(operatorTypes) && allocated(operators) && allocated(operatorTypes) &&
+//@     (forall i int :: 0 <= i && i < len(operatorTypes) ==> operatorTypes[i] > 0 && operatorTypes[i] != Function && operatorTypes[i] != Unary &&
+//@         operatorTypes[i] != Variable && operatorTypes[i] != Constant)
+//@ func init
+//@   requires !initrun()
+//@   ensures len(operators) == len(operatorTypes) &&
+//@     (forall i int :: 0 <= i && i < len(operatorTypes) ==> operatorTypes[i] > 0 && operatorTypes[i] != Function && operatorTypes[i] != Unary &&
+//@         operatorTypes[i] != Variable && operatorTypes[i] != Constant)
+// The lexical analysis turns tokenizer tokens into classified tokens that satisfy tokOK (a valid value; variables carry
+// their name as a string; no Function or Unary type yet) or fails with an error.
 //@ func (c *ExpressionParser) completeLexicalAnalysis
-//@   requires c != nil
+//@   globals
+//@   requires c != nil && arr(c.initialTokens) != arr(c.originalTokens) && arr(c.initialTokens) != arr(operatorTypes) &&
+//@       (forall i int :: 0 <= i && i < len(c.originalTokens) ==> c.originalTokens[i] != nil && allocated(c.originalTokens[i])) &&
+//@       (forall i int :: 0 <= i && i < len(c.initialTokens) ==> tokOK(c.initialTokens[i]))
 //@   ensures[C02] result == nil ==> (forall i int :: 0 <= i && i < len(c.initialTokens) ==> tokOK(c.initialTokens[i]))
 //@   ensures[C02] arr(c.initialTokens) == old(arr(c.initialTokens)) || fresh(c.initialTokens)
 //@   assigns c.initialTokens, c.initialTokens[*]
 //@   nopanic
-//@   trusted
+//@   loop 0
+//@     invariant -1 <= rangeindex && rangeindex < len(c.originalTokens)
+//@     invariant c.originalTokens == old(c.originalTokens) && elems(c.originalTokens) == old(elems(c.originalTokens))
+//@     invariant arr(c.initialTokens) == old(arr(c.initialTokens)) || fresh(c.initialTokens)
+//@     invariant elems(operatorTypes) == old(elems(operatorTypes))
+//@     invariant forall i int :: 0 <= i && i < len(c.initialTokens) ==> tokOK(c.initialTokens[i])
+//@     decreases len(c.originalTokens) - rangeindex
+//@   loop 1
+//@     invariant 0 <= index && index <= len(operators) && (tokenType == Unknown || (tokenType > 0 && tokenType != Function && tokenType != Unary && tokenType != Variable && tokenType != Constant))
+//@     invariant tokenValue == variants.Empty
+//@     decreases len(operators) - index
+//@   loop 2
+//@     invariant 0 <= i && i <= len(operators) && (tokenType == Unknown || (tokenType > 0 && tokenType != Function && tokenType != Unary && tokenType != Variable && tokenType != Constant))
+//@     invariant tokenValue == variants.Empty
+//@     decreases len(operators) - i
 //@ func (c *ExpressionParser) performParsing
+//@   globals
+//@   requires arr(c.initialTokens) != arr(operatorTypes) && arr(c.initialTokens) != arr(c.originalTokens) &&
+//@       (forall i int :: 0 <= i && i < len(c.originalTokens) ==> c.originalTokens[i] != nil && allocated(c.originalTokens[i]))
 //@   requires pOK(c) && c.currentTokenIndex == 0 && len(c.resultTokens) == 0 && len(c.initialTokens) == 0 &&
 //@       arr(c.resultTokens) != arr(c.initialTokens)
 //@   ensures[C03] pOK(c)
@@ -454,11 +482,13 @@ package parsers
 // whether or not an error is reported
 //@ func (c *ExpressionParser) ParseString
 //@   tags C03
+//@   globals
 //@   requires c != nil && c.tokenizer != nil
 //@   ensures[C03] pOK(c)
 //@   nopanic
 //@ func (c *ExpressionParser) SetExpression
 //@   tags C03
+//@   globals
 //@   requires c != nil && c.tokenizer != nil
 //@   ensures[C03] pOK(c)
 //@   nopanic
